@@ -421,6 +421,14 @@ def _solve_chunk(params, lo, hi):
                         r["violations"].append(viol("solve_vrptw", "raised", wit, f"solve_vrptw(instance {code}, seed={seed}): {type(ex).__name__}: {ex}"))
                         continue
                     judge(res, "seeded", wit)
+                    for stop_at in (3, 11):
+                        # early stop through the progress callback: the reported objective must still be that of the returned state
+                        try:
+                            rs = gcall(lambda: vrp.solve_vrptw(customers[1:], vehicles, max_iter=40, seed=seed, on_progress=lambda p_: p_.iteration >= stop_at, progress_interval=1), 10.0, 100_000_000)
+                            r["n"] += 1
+                            judge(rs, f"stopped{stop_at}", dict(wit, stop_at=stop_at))
+                        except Exception as ex:  # noqa: BLE001
+                            r["violations"].append(viol("solve_vrptw", "raised", dict(wit, stop_at=stop_at), f"solve_vrptw(instance {code}, seed={seed}, stop at {stop_at}): {type(ex).__name__}: {ex}"))
                     if canon(res.solution) != canon(res2.solution) or res.objective != res2.objective:
                         r["violations"].append(viol("solve_vrptw", "seed_not_reproducible", wit, f"two runs with seed={seed} differ"))
             if not r["samples"]:
